@@ -207,7 +207,51 @@ class Model:
         return None
 
     def slice(self, ex, base, lo, hi, st, node):
-        return None
+        """seq[lo:hi] of a symbolic sequence: a fresh sequence characterised pointwise (Python's clamping of the bounds included)."""
+        if not isinstance(base.ty, SeqT):
+            return None
+        n = seq_len(base.term)
+
+        def norm(v, default):
+            if v is None:
+                return default
+            if v.ty is not INT:
+                raise Unsupported("non-int slice bound")
+            t = z3.If(v.term < 0, n + v.term, v.term)
+            return z3.If(t < 0, 0, z3.If(t > n, n, t))
+        a, b = norm(lo, z3.IntVal(0)), norm(hi, n)
+        r = V(fresh("slice", Ref), base.ty)
+        i = z3.Int("sli")
+        st.assume(r.term != NONE)
+        st.assume(n >= 0)
+        st.assume(seq_len(r.term) == z3.If(b > a, b - a, 0))
+        st.assume(z3.ForAll([i], z3.Implies(z3.And(0 <= i, i < seq_len(r.term)), seq_at(r.term, i, base.ty.elem) == seq_at(base.term, a + i, base.ty.elem)),
+                            patterns=[seq_at(r.term, i, base.ty.elem)]))
+        return r
+
+    def need_join_lemmas(self):
+        """Facts of str.join used as axioms (listed as assumptions): join of an empty / one-element sequence, and
+        sep.join(q + [x]) == sep.join(q) + sep + x for a non-empty q  (stated over any q2 that extends q by one element)."""
+        if getattr(self, "_join_lemmas", False):
+            return
+        self._join_lemmas = True
+        self.need_join_ext()
+        sep = z3.Const("jlsep", z3.StringSort())
+        q, q2 = z3.Consts("jlq jlq2", Ref)
+        i = z3.Int("jli")
+        J = fn("str.join", z3.StringSort(), Ref, z3.StringSort())
+        self.add_axiom(z3.ForAll([sep, q], z3.Implies(seq_len(q) == 0, J(sep, q) == z3.StringVal("")), patterns=[J(sep, q)]))
+        self.add_axiom(z3.ForAll([sep, q], z3.Implies(seq_len(q) == 1, J(sep, q) == seq_at(q, 0, STR)), patterns=[J(sep, q)]))
+        self.add_axiom(z3.ForAll([sep, q, q2], z3.Implies(
+            z3.And(seq_len(q) >= 1, seq_len(q2) == seq_len(q) + 1,
+                   z3.ForAll([i], z3.Implies(z3.And(0 <= i, i < seq_len(q)), seq_at(q2, i, STR) == seq_at(q, i, STR)))),
+            J(sep, q2) == z3.Concat(J(sep, q), sep, seq_at(q2, seq_len(q), STR))), patterns=[z3.MultiPattern(J(sep, q), J(sep, q2))]))
+        # cons form: sep.join([x] + q) == x + sep + sep.join(q) for a non-empty q
+        self.add_axiom(z3.ForAll([sep, q, q2], z3.Implies(
+            z3.And(seq_len(q) >= 1, seq_len(q2) == seq_len(q) + 1,
+                   z3.ForAll([i], z3.Implies(z3.And(0 <= i, i < seq_len(q)), seq_at(q2, i + 1, STR) == seq_at(q, i, STR)))),
+            J(sep, q2) == z3.Concat(seq_at(q2, 0, STR), sep, J(sep, q))), patterns=[z3.MultiPattern(J(sep, q), J(sep, q2))]))
+        self.assumptions.append("str.join: join of [] is '', of [x] is x, sep.join(q+[x]) == sep.join(q)+sep+x and sep.join([x]+q) == x+sep+sep.join(q) for non-empty q (facts of Python's str.join, used as axioms)")
 
     def setattr(self, ex, base, attr, val, st, node):
         return False
@@ -539,6 +583,9 @@ class Model:
     def call_node(self, ex, e, st):
         if ast.unparse(e.func) in ("collections.ChainMap", "ChainMap") and not e.keywords:
             return self.chainmap(ex, e, st)
+        if isinstance(e.func, ast.Name) and e.func.id == "bool" and len(e.args) == 1 and not e.keywords and isinstance(e.args[0], ast.BoolOp) \
+                and "bool" not in st.env:
+            return V(ex.ev_truth(e.args[0], st), BOOL)       # bool(a and b ...): truth value of an and/or chain of mixed types
         # method call syntax first, so that receivers are evaluated once
         if isinstance(e.func, ast.Attribute):
             recv = ex.ev(e.func.value, st)
